@@ -3,6 +3,7 @@
 #pragma once
 #include <cntgs/contiguous.hpp>
 
+#include <algorithm>
 #include <array>
 #include <cstdint>
 #include <cstring>
@@ -252,6 +253,7 @@ enum Form
     F_MOVE_ITERATOR_VECTOR,
     F_MOVE_ITERATOR_POINTER,
     F_MOVE_ITERATOR_LIST,
+    F_REVERSE_ITERATOR,  // std::reverse_iterator<vector::iterator>: random access, lvalue reference, but not contiguous in memory order
     F_COUNT_
 };
 
@@ -259,11 +261,14 @@ inline const char* form_name(int f)
 {
     static const char* n[] = {"vector&", "const vector&", "vector&&", "list&", "list&&", "deque&", "std::array&", "C array", "lazy generated range",
                               "pointer", "vector::iterator", "vector::const_iterator", "list::iterator", "deque::iterator", "counting input iterator",
-                              "move_iterator<vector::iterator>", "move_iterator<pointer>", "move_iterator<list::iterator>"};
+                              "move_iterator<vector::iterator>", "move_iterator<pointer>", "move_iterator<list::iterator>", "reverse_iterator<vector::iterator>"};
     return n[f];
 }
 constexpr bool is_iterator_form(int f) { return f >= F_POINTER; }
-constexpr bool is_moving_form(int f) { return f == F_VECTOR_RVALUE || f == F_LIST_RVALUE || f >= F_MOVE_ITERATOR_VECTOR; }
+constexpr bool is_moving_form(int f)
+{
+    return f == F_VECTOR_RVALUE || f == F_LIST_RVALUE || f == F_MOVE_ITERATOR_VECTOR || f == F_MOVE_ITERATOR_POINTER || f == F_MOVE_ITERATOR_LIST;
+}
 constexpr bool fixed_length_form(int f) { return f == F_ARRAY_LVALUE || f == F_CARRAY_LVALUE; }
 
 struct Outcome
@@ -323,6 +328,7 @@ Outcome run_cell(std::vector<int> keys)
         else
             expected.push_back(convert<T, S>(src[i]));
     }
+    if constexpr (F == F_REVERSE_ITERATOR) std::reverse(expected.begin(), expected.end());
     if constexpr (has_move_counter<T, S>)
         for (auto& s : src)
         {
@@ -349,7 +355,22 @@ Outcome run_cell(std::vector<int> keys)
                 s.moved_from = 0;
             }
     }
-    if constexpr (F == F_DEQUE_LVALUE || F == F_DEQUE_ITERATOR) deq.assign(src.begin(), src.end());
+    if constexpr (F == F_DEQUE_LVALUE || F == F_DEQUE_ITERATOR)
+    {
+        // start the range two items in front of the end of a deque chunk (512 bytes in libstdc++), so that a source
+        // of three or more items is not contiguous in memory
+        const std::size_t per_chunk = sizeof(S) <= 256 ? 512 / sizeof(S) : 1;
+        const std::size_t dummies = per_chunk > 2 ? per_chunk - 2 : 0;
+        for (std::size_t i = 0; i < dummies; ++i) deq.push_back(make_src<S>(0));
+        for (auto&& s : src) deq.push_back(s);
+        for (std::size_t i = 0; i < dummies; ++i) deq.pop_front();
+        if constexpr (has_move_counter<T, S>)
+            for (auto& s : src)
+            {
+                s.copied_from = 0;
+                s.moved_from = 0;
+            }
+    }
     if constexpr (F == F_ARRAY_LVALUE)
         for (std::size_t i = 0; i < 4; ++i) arr[i] = src[i];
     if constexpr (F == F_CARRAY_LVALUE)
@@ -400,6 +421,8 @@ Outcome run_cell(std::vector<int> keys)
         VO::emplace(v, n, std::make_move_iterator(src.data()));
     else if constexpr (F == F_MOVE_ITERATOR_LIST)
         VO::emplace(v, n, std::make_move_iterator(lst.begin()));
+    else if constexpr (F == F_REVERSE_ITERATOR)
+        VO::emplace(v, n, src.rbegin());
     // ---------------------------------------------------------------------------------------------------------
 
     auto fail = [&](const std::string& m)
